@@ -315,7 +315,8 @@ SPEC = PropertySpec(
           '{1,0.75,0.5,0.25}; 2-6 frames x 1-3 atoms placed at 0-1.3 radii from a random periodic image of a site, 20% anywhere. '
           'states / inner_states of Trajectory.transitions_between_sites vs the Lean assignment by certified minimum-image distance '
           '(exact rationals of the very floats); decisions within 1e-3 A of a sphere surface are not compared; inner in {none, outer}; '
-          'automatic radius: 2r < smallest site separation, value, error branch. Non-trivial: an atom in range through a periodic image, '
+          'automatic radius: 2r < smallest site separation OF THE SIMULATION CELL (the site structure carries a 3-6 % different '
+          'reference cell every other time), value (a tie of separation and 4 x amplitude within 1e-9 only needs 2r <= separation), error branch. Non-trivial: an atom in range through a periodic image, '
           'one out of range, and a non-diagonal lattice matrix or a site on a face.'),
     trusted=['MDAnalysis PeriodicKDTree.search_tree = radius search under the box\'s minimum image (float32 box): validated against the certified minimum image with a 1e-3 A margin',
              'pymatgen Lattice.get_all_distances for the automatic radius'],
